@@ -176,6 +176,9 @@ func c09Documents(r *core.R) {
 					over := int64(n) > lm.decode
 					if over {
 						r.Nontrivial(1)
+						if ep.name == "Optimize" && n > 2*L {
+							r.Sample(map[string]any{"layer": "document", "role": role, "decoded_size": n, "limits": lm.name, "entry_point": ep.name, "error": trimTo(fmt.Sprint(err), 200), "allocated": alloc})
+						}
 					}
 					rep := map[string]any{"layer": "document", "role": role, "decoded_size": n, "limits": lm.name, "entry_point": ep.name}
 					what := fmt.Sprintf("%s of %d decoded bytes, %s, %s", role, n, lm.name, ep.name)
